@@ -43,7 +43,7 @@ func genBoundaryCase(t *rapid.T) BoundaryCase {
 	}
 	maxLen := rapid.SampledFrom([]int{20, 100, 400, 1500}).Draw(t, "maxlen")
 	c.S = genStream(t, SGenOpts{MaxMsgs: 3, Compression: c.R.Compress, R: c.R.ReadBuf, MaxLen: maxLen})
-	c.Reads = genReadProgram(t, c.R.ReadBuf, false, false)
+	c.Reads = genReadProgram(t, c.R.ReadBuf, true, false) // incl. messages the application abandons part-way
 	for i := range c.Reads {
 		if c.Reads[i].Op == "join" {
 			c.Reads[i] = RStep{Op: "readmessage", Abandon: -1}
